@@ -145,6 +145,23 @@ Definition ctx_reply_payload (code : Z) (text : option (list byte)) : list byte 
   let t := match text with None => [] | Some t => t end in
   [1%N; Z.to_N (code mod 256)] ++ (if length t <=? 255 then t else firstn 255 t ++ [0%N]).
 
+(* context_reply.c, the branch without reply context (rc == NULL): nothing can be sent; BadArgument for a code
+   outside char, 0 without format, else 1 and "[<level>>] <text>\n" on stderr (not a terminal: no colour codes),
+   level = debug / info / error for code 0 / > 0 / < 0 (mpt_log_identifier of LogDebug / LogInfo / LogError);
+   [text] is printed with "%s": up to its first zero byte.  Result and what appears on stderr. *)
+Fixpoint until0 (t : list byte) : list byte :=
+  match t with [] => [] | b :: r => if (b =? 0)%N then [] else b :: until0 r end.
+Definition level_name (code : Z) : list byte :=
+  if (code =? 0)%Z then [100; 101; 98; 117; 103]%N             (* "debug" *)
+  else if (0 <? code)%Z then [105; 110; 102; 111]%N            (* "info" *)
+  else [101; 114; 114; 111; 114]%N.                            (* "error" *)
+Definition ctx_reply_none (code : Z) (text : option (list byte)) : Z * list byte :=
+  if (code <? -128)%Z || (127 <? code)%Z then (EBadArgument, [])
+  else match text with
+       | None => (0%Z, [])
+       | Some t => (1%Z, [91%N] ++ level_name code ++ [62; 93; 32]%N ++ until0 t ++ [10%N])
+       end.
+
 (* ------------------------------------------------------------------ *)
 (* operations                                                          *)
 
